@@ -61,6 +61,14 @@ pub mod shims {
     #[verifier::external_body]
     pub fn hooks_not_touching(v: &Vec<Hook>, s: &std::collections::HashSet<crate::config::HookType>) -> (r: Vec<Hook>)
         ensures r@ == v@.filter(|h: Hook| !touches(h, hset(*s))) { unimplemented!() }
+    // the same with is_subset: the hooks ALL of whose types are in SET (a hook with a type outside SET is left out), and its negation
+    pub open spec fn within(h: Hook, s: Set<crate::config::HookType>) -> bool { forall|t: crate::config::HookType| hset(h.hook_type).contains(t) ==> s.contains(t) }
+    #[verifier::external_body]
+    pub fn hooks_within(v: &Vec<Hook>, s: &std::collections::HashSet<crate::config::HookType>) -> (r: Vec<Hook>)
+        ensures r@ == v@.filter(|h: Hook| within(h, hset(*s))) { unimplemented!() }
+    #[verifier::external_body]
+    pub fn hooks_not_within(v: &Vec<Hook>, s: &std::collections::HashSet<crate::config::HookType>) -> (r: Vec<Hook>)
+        ensures r@ == v@.filter(|h: Hook| !within(h, hset(*s))) { unimplemented!() }
     pub struct Account { pub x: Ghost<int>, pub endpoints: Ghost<Set<Seq<char>>> }
     impl Account {
         #[verifier::external_body]
